@@ -194,11 +194,15 @@ pub fn run_c06(r: &mut Report) {
             grid.push(Utc.with_ymd_and_hms(y, 12, 31, 23, 59, 59).unwrap());
         }
         for secs in [-366 * 86400i64, -86400, -3600, -61, -5, 120, 3600, 86400, 366 * 86400] { grid.push(now + Duration::seconds(secs)); }
+        // instants the document format cannot write (years before 0 / after 9999) can still be handed to the builder
+        for y in [-1, -100, -9999, -262000, 10000, 262000] { if let chrono::LocalResult::Single(t) = Utc.with_ymd_and_hms(y, 6, 15, 12, 0, 0) { grid.push(t); } }
         for t in grid {
             let t = Utc.timestamp_opt(t.timestamp(), 0).unwrap();
             let expect = t > now + Duration::seconds(60) || t >= Utc::now();
             if (t - now).num_seconds().abs() < 3 { continue; }
             for via in ["builder", "document"] {
+                use chrono::Datelike;
+                if via == "document" && !(0..=9999).contains(&t.year()) { continue; }
                 let (lay0, d) = simple(&[&o1], 30);
                 let l0: LayoutMetadata = match lay0.metadata.clone() { MetadataWrapper::Layout(l) => l, _ => unreachable!() };
                 let l: Option<LayoutMetadata> = if via == "builder" { let mut l = l0.clone(); l.expires = t; Some(l) } else {
@@ -423,6 +427,32 @@ pub fn run_c04(r: &mut Report) {
             }
         }
     }
+    // ECDSA signatures come in several DER lengths (r and s lose leading zero bytes): every length ring produces is accepted.
+    // Signs the same block until every length from 72 down to a rare short one has been seen (bounded search).
+    {
+        let ec = std::fs::read("/repo/tests/ecdsa/ec.pk8.der").ok().and_then(|d| PrivateKey::from_pkcs8(&d, in_toto::crypto::SignatureScheme::EcdsaP256Sha256).ok());
+        if let Some(ec) = ec {
+            let base = signed_link(&l, &[&ec]);
+            let msg_block = base.clone();
+            let mut seen: std::collections::BTreeMap<usize, bool> = std::collections::BTreeMap::new();
+            let budget = crate::util::scale(250_000, 1_500_000);
+            let mut tries = 0usize;
+            while tries < budget {
+                tries += 1;
+                let again = signed_link(&l, &[&ec]);
+                let sig_hex = serde_json::to_value(&again.signatures[0]).unwrap()["sig"].as_str().unwrap().to_string();
+                let len = sig_hex.len() / 2;
+                if seen.contains_key(&len) { continue; }
+                let mut m = msg_block.clone();
+                m.signatures = again.signatures.clone();
+                let ok = matches!(no_panic(|| m.verify(1, [ec.public()])), Ok(Ok(_)));
+                seen.insert(len, ok);
+                if len <= 68 { break; }
+            }
+            let bad: Vec<&usize> = seen.iter().filter(|(_, ok)| !**ok).map(|(l, _)| l).collect();
+            r.case("ecdsa-signature-lengths", json!({"signatures_made": tries, "lengths_seen": seen.keys().collect::<Vec<_>>()}), "a valid signature of every length is accepted", format!("rejected lengths: {:?}", bad), bad.is_empty() && seen.len() >= 3);
+        }
+    }
     // key material x declared scheme: a key is checked under its DECLARED scheme; a signature made under the scheme that fits the
     // material, re-attributed to a key that declares another scheme, is not a valid signature of that key
     {
@@ -484,6 +514,7 @@ pub fn digest_shape_dissent(r: &mut Report, repetitions: usize, tag: &str) {
 pub fn run_c07(r: &mut Report) {
     agreement_matrix(r, 1, "agreement");
     digest_shape_dissent(r, 1, "digest-shape-dissent");
+    cosigned_links(r);
     let owner = key(1);
     let ka = key(2);
     let kb = key(3);
@@ -509,6 +540,33 @@ pub fn run_c07(r: &mut Report) {
 
 /// n links of one step, all identical except the one at rank `pos` (in key-id order), which dissents in `kind`.
 /// Shared by C07 (any dissent must be fatal when threshold >= 2) and C13 (the outcome is the same on every run).
+/// links that carry MORE signatures than the one they are filed under (co-signed evidence): a co-signer's own, dissenting link still
+/// counts as dissent, whichever of the two files sorts first
+pub fn cosigned_links(r: &mut Report) {
+    let owner = key(1);
+    let mut pool: Vec<_> = (0..4).map(|_| fresh_key()).collect();
+    pool.sort_by(|a, b| a.key_id().cmp(b.key_id()));
+    for (filed_under, cosigner) in [(0usize, 1usize), (1, 0), (0, 3), (3, 0)] {
+        for dissent in [true, false] {
+            for sig_order_cosigner_first in [false, true] {
+                let d = tmpdir();
+                let (a, b) = (&pool[filed_under], &pool[cosigner]);
+                let agreed = link("a", &[("m", 1)], &[("p", 2)]);
+                let signers: Vec<&in_toto::crypto::PrivateKey> = if sig_order_cosigner_first { vec![b, a] } else { vec![a, b] };
+                write_link(d.path(), "a", a.key_id(), &signed_link(&agreed, &signers));
+                let own = if dissent { link("a", &[("m", 1)], &[("p", 9)]) } else { agreed.clone() };
+                write_link(d.path(), "a", b.key_id(), &signed_link(&own, &[b]));
+                let l = layout(vec![step("a", 2, &[a, b], allow_all(), allow_all())], vec![], &[a, b], 30);
+                let lay = signed_layout(&l, &[&owner]);
+                let res = no_panic(|| in_toto_verify(&lay, owner_keys(&[&owner]), d.path().to_str().unwrap(), None));
+                let expect = !dissent;
+                r.case("co-signed-link-and-the-co-signer's-own-link", json!({"co_signed_file_sorts": if filed_under < cosigner { "first" } else { "last" }, "own_link_dissents": dissent, "cosigner_signature_first": sig_order_cosigner_first, "threshold": 2}),
+                       if expect { "Ok" } else { "Err" }, match &res { Ok(v) => verdict(v), Err(p) => format!("panic: {}", p) }, matches!(&res, Ok(v) if v.is_ok() == expect));
+            }
+        }
+    }
+}
+
 pub fn agreement_matrix(r: &mut Report, repetitions: usize, tag: &str) {
     let owner = key(1);
     let mut pool: Vec<_> = (0..6).map(|_| fresh_key()).collect();
